@@ -156,6 +156,14 @@ int main(int argc, char **argv) {
         execv(real, argv);
         perror("stub: exec"); return 127;
     }
+    if (!strcmp(tool, "doppel") || !strcmp(tool, "patchelf")) {
+        log_invocation(tool, argc, argv);
+        char real[64]; snprintf(real, sizeof real, "/venv/bin/%s", tool);
+        execv(real, argv);
+        snprintf(real, sizeof real, "/usr/bin/%s", tool);
+        execv(real, argv);
+        perror("stub: exec"); return 127;
+    }
     if (!strcmp(tool, "cp") || !strcmp(tool, "ln")) {
         /* logging wrappers around the real tools */
         log_invocation(tool, argc, argv);
